@@ -348,21 +348,33 @@ Proof.
 Qed.
 
 Lemma div_spec a x r : is_count_like a = true -> fp_div a x = Ok r ->
-  ~ x == 0 /\ fkind r = KFloat /\ fbits r = fbits a /\ flevel r = flevel a /\ fname r = fname a /\
+  (x == 0 -> fcnt a = []) /\ fkind r = KFloat /\ fbits r = fbits a /\ flevel r = flevel a /\ fname r = fname a /\
   ckeys (fcnt r) = ckeys (fcnt a) /\
   (forall i, In i (ckeys (fcnt a)) -> cget (fcnt r) i = (cget (fcnt a) i / x)%Q) /\
   (forall i, cget (fcnt r) i == (cget (fcnt a) i / x)%Q).
 Proof.
-  intros Hc. unfold fp_div. destruct (Qeq_bool x 0) eqn:X; [discriminate|].
-  destruct (from_fingerprint KFloat a) as [cf|e] eqn:F; simpl; [|discriminate].
+  intros Hc. unfold fp_div.
+  destruct (from_fingerprint KFloat a) as [cf|e] eqn:F; cbn [rbind]; [|discriminate].
+  destruct (Qeq_bool x 0 && _) eqn:X; [discriminate|].
   intro H. inversion H; subst; clear H.
   assert (NB : KFloat <> KBit) by discriminate.
   destruct (scalar_shape KFloat a cf (map (fun kv => (fst kv, (snd kv / x)%Q)) (fcnt a)) F NB) as (K & B & L & N & Ks & P).
   rewrite (ckeys_map_val (fun v => (v / x)%Q)) in Ks, P.
-  split; [apply Qeq_bool_neq; exact X|]. repeat split; try assumption.
+  split.
+  { intro Hx. apply Qeq_bool_iff in Hx. rewrite Hx in X. simpl in X. destruct (fcnt a); [reflexivity | discriminate]. }
+  repeat split; try assumption.
   - intros i Hi. rewrite P, (cget_map_val (fun v => (v / x)%Q)). rewrite (proj2 (zmem_In _ _) Hi). reflexivity.
   - intro i. rewrite P, (cget_map_val (fun v => (v / x)%Q)). destruct (zmem i (ckeys (fcnt a))) eqn:M; [reflexivity|].
     apply zmem_false in M. rewrite (cget_absent _ _ M). simpl. unfold Qdiv. rewrite Qmult_0_l. reflexivity.
+Qed.
+
+(* division by zero raises (ZeroDivisionError) as soon as there is a count to divide; an empty fingerprint is returned as is *)
+Lemma div_by_zero a x cf : from_fingerprint KFloat a = Ok cf -> x == 0 ->
+  fp_div a x = if match fcnt a with [] => true | _ => false end
+               then Ok (set_counts KFloat cf []) else Raises EOther.
+Proof.
+  intros F Hx. unfold fp_div. rewrite F. cbn [rbind]. apply Qeq_bool_iff in Hx. rewrite Hx. simpl.
+  destruct (fcnt a); reflexivity.
 Qed.
 
 (* ---- floor division: positions whose count is below the divisor are dropped ---------------------- *)
@@ -409,7 +421,7 @@ Proof.
 Qed.
 
 Lemma floordiv_spec a x r : is_count_like a = true -> fp_floordiv a x = Ok r ->
-  ~ x == 0 /\ fkind r = KCount /\ fbits r = fbits a /\ flevel r = flevel a /\ fname r = fname a /\
+  (x == 0 -> fidx r = []) /\ fkind r = KCount /\ fbits r = fbits a /\ flevel r = flevel a /\ fname r = fname a /\
   (* kept positions: exactly those holding a count v with x <= v; indices and count keys agree *)
   (forall i, In i (fidx r) <-> exists v, In (i, v) (fcnt a) /\ (x <= v)%Q) /\
   (forall i, In i (ckeys (fcnt r)) <-> In i (fidx r)) /\ ssorted (fidx r) /\
@@ -418,14 +430,17 @@ Lemma floordiv_spec a x r : is_count_like a = true -> fp_floordiv a x = Ok r ->
      cget (fcnt r) i = if zmem i (ckeys (fcnt a)) && Qle_bool x (cget (fcnt a) i)
                        then qtrunc (cget (fcnt a) i / x)%Q else 0%Q).
 Proof.
-  intros Hc. unfold fp_floordiv. destruct (Qeq_bool x 0) eqn:X; [discriminate|].
-  destruct (from_fingerprint KCount a) as [cf|e] eqn:F; simpl; [|discriminate].
+  intros Hc. unfold fp_floordiv.
+  destruct (from_fingerprint KCount a) as [cf|e] eqn:F; cbn [rbind]; [|discriminate]. cbv zeta.
+  set (kept := filter (fun kv => Qle_bool x (snd kv)) (fcnt a)).
+  destruct (Qeq_bool x 0 && _) eqn:X; [discriminate|].
   intro H. inversion H; subst; clear H. simpl.
   assert (NB : KCount <> KBit) by discriminate.
   destruct (from_fingerprint_count_ok KCount a cf NB F) as (K & B & L & N & _).
-  set (kept := filter (fun kv => Qle_bool x (snd kv)) (fcnt a)).
   rewrite !ckeys_cbuild, !(ckeys_map_val (fun v => (v / x)%Q)).
-  split; [apply Qeq_bool_neq; exact X|]. repeat split; try assumption.
+  split.
+  { intro Hx. apply Qeq_bool_iff in Hx. rewrite Hx in X. simpl in X. destruct kept; [reflexivity | discriminate]. }
+  repeat split; try assumption.
   - rewrite In_usort. intro Hi. apply (In_ckeys_filter_val (Qle_bool x)) in Hi.
     destruct Hi as [v [H1 H2]]. exists v. split; [exact H1 | apply Qle_bool_iff; exact H2].
   - intros [v [H1 H2]]. rewrite In_usort. apply (In_ckeys_filter_val (Qle_bool x)). exists v.
@@ -444,6 +459,18 @@ Proof.
       destruct (zmem i (ckeys (fcnt a)) && Qle_bool x (cget (fcnt a) i)) eqn:C; [|reflexivity].
       exfalso. apply M. apply andb_true_iff in C. destruct C as [C1 C2]. apply zmem_In in C1.
       apply (In_ckeys_filter_val (Qle_bool x)). exists (cget (fcnt a) i). split; [apply cget_In_first; exact C1 | exact C2].
+Qed.
+
+(* floor division by zero raises (ZeroDivisionError) iff some count is >= 0 *)
+Lemma floordiv_by_zero a x cf v i : from_fingerprint KCount a = Ok cf -> x == 0 -> In (i, v) (fcnt a) -> (0 <= v)%Q ->
+  fp_floordiv a x = Raises EOther.
+Proof.
+  intros F Hx Hin Hv. unfold fp_floordiv. rewrite F. cbn [rbind]. cbv zeta.
+  pose proof (proj2 (Qeq_bool_iff _ _) Hx) as Hb. rewrite Hb. simpl.
+  destruct (filter (fun kv => Qle_bool x (snd kv)) (fcnt a)) eqn:E; [|reflexivity].
+  exfalso. assert (In (i, v) (filter (fun kv => Qle_bool x (snd kv)) (fcnt a))).
+  { apply filter_In. split; [exact Hin|]. simpl. apply Qle_bool_iff. rewrite Hx. exact Hv. }
+  rewrite E in H. exact H.
 Qed.
 
 (* the two readings of "dropped iff v < x" for a dict with distinct keys *)
@@ -515,38 +542,57 @@ Qed.
 
 Definition batch_kind (l : list fp) : kind := if any_float l then KFloat else KCount.
 
-Lemma batch_add_unweighted_eq a0 l' : let l := a0 :: l' in
+Lemma batch_add_unweighted_eq a0 l' : let l := a0 :: l' in batch_bits_ok l = true ->
   batch_add l None =
   if existsb (fun i => fbits a0 <=? i) (all_keys l) then Raises EBits
   else Ok (Some (mkfp (batch_kind l) (fbits a0) (flevel a0) (all_keys l)
                    (cbuild (all_keys l) (fun i => cast_value (batch_kind l) (wsum l (ones (length l)) i))) None)).
 Proof.
-  intro l. unfold batch_add, l. cbv iota. fold l. fold (batch_kind l).
+  intros l Hb. unfold batch_add, l. cbv iota. fold l. fold (batch_kind l). rewrite Hb. cbn [negb].
   rewrite (mk_count_cbuild (batch_kind l) (all_keys l) (wsum l (ones (length l))) (fbits a0) (flevel a0) None (ssorted_usort _)).
   destruct (existsb _ _); reflexivity.
 Qed.
 
-Lemma batch_add_weighted_eq a0 l' ws : let l := a0 :: l' in length ws = length l ->
+Lemma batch_add_weighted_eq a0 l' ws : let l := a0 :: l' in batch_bits_ok l = true -> length ws = length l ->
   batch_add l (Some ws) =
   if existsb (fun i => fbits a0 <=? i) (all_keys l) then Raises EBits
   else Ok (Some (mkfp KFloat (fbits a0) (flevel a0) (all_keys l) (cbuild (all_keys l) (wsum l ws)) None)).
 Proof.
-  intros l E. unfold batch_add, l. cbv iota. fold l. rewrite E, Nat.eqb_refl. simpl negb. cbv iota.
+  intros l Hb E. unfold batch_add, l. cbv iota. fold l. rewrite Hb, E, Nat.eqb_refl. simpl negb. cbv iota.
   rewrite (mk_count_cbuild KFloat (all_keys l) (wsum l ws) (fbits a0) (flevel a0) None (ssorted_usort _)).
   destruct (existsb _ _); reflexivity.
 Qed.
 
+(* the length check that precedes everything else *)
+Lemma batch_bits_ok_spec a0 l' : batch_bits_ok (a0 :: l') = true <-> forall a, In a (a0 :: l') -> fbits a = fbits a0.
+Proof.
+  unfold batch_bits_ok. rewrite forallb_forall. split; intros H a Ha; [apply Z.eqb_eq | apply Z.eqb_eq]; apply H; exact Ha.
+Qed.
+
+Lemma batch_add_ok_bits l w r : batch_add l w = Ok r -> batch_bits_ok l = true.
+Proof.
+  destruct l as [|a0 l']; [reflexivity|]. unfold batch_add. destruct (batch_bits_ok (a0 :: l')); [reflexivity | discriminate].
+Qed.
+
+Lemma batch_bits_mismatch_add l w a : l <> [] -> In a l -> fbits a <> fbits (hd a l) -> batch_add l w = Raises EBits.
+Proof.
+  destruct l as [|a0 l']; [congruence|]. intros _ Ha Hne. simpl hd in Hne. unfold batch_add.
+  destruct (batch_bits_ok (a0 :: l')) eqn:E; [|reflexivity].
+  exfalso. apply Hne. apply (proj1 (batch_bits_ok_spec a0 l') E a Ha).
+Qed.
+
 (* unweighted sum: every position holds the (cast of the) sum over the batch; keys = union of the members' keys *)
 Lemma batch_add_spec l r : batch_add l None = Ok (Some r) ->
-  (exists a0 l', l = a0 :: l' /\ fbits r = fbits a0 /\ flevel r = flevel a0) /\
+  (exists a0 l', l = a0 :: l' /\ fbits r = fbits a0 /\ flevel r = flevel a0) /\ (forall a, In a l -> fbits a = fbits r) /\
   fkind r = batch_kind l /\ fname r = None /\
   fidx r = all_keys l /\ ckeys (fcnt r) = fidx r /\
   (forall i, In i (fidx r) <-> exists a, In a l /\ In i (ckeys (counts_of a))) /\
   (forall i, cget (fcnt r) i = cast_value (fkind r) (wsum l (ones (length l)) i)).
 Proof.
-  destruct l as [|a0 l']; [discriminate|]. rewrite batch_add_unweighted_eq. cbv zeta.
-  destruct (existsb _ _); [discriminate|]. intro H. inversion H; subst; clear H. simpl fkind; simpl fname; simpl fidx; simpl fcnt; simpl fbits; simpl flevel.
-  split; [exists a0, l'; auto|]. repeat split; try reflexivity.
+  destruct l as [|a0 l']; [discriminate|]. intro H. pose proof (batch_add_ok_bits _ _ _ H) as Hb.
+  rewrite (batch_add_unweighted_eq a0 l' Hb) in H. cbv zeta in H.
+  destruct (existsb _ _); [discriminate|]. inversion H; subst; clear H. simpl fkind; simpl fname; simpl fidx; simpl fcnt; simpl fbits; simpl flevel.
+  split; [exists a0, l'; auto|]. split; [exact (proj1 (batch_bits_ok_spec a0 l') Hb)|]. repeat split; try reflexivity.
   - apply ckeys_cbuild.
   - apply In_all_keys.
   - apply In_all_keys.
@@ -574,7 +620,7 @@ Lemma batch_add_sum l r : batch_add l None = Ok (Some r) ->
   (any_float l = true \/ forall a, In a l -> int_counts a) ->
   forall i, cget (fcnt r) i == csum l i.
 Proof.
-  intros H C i. destruct (batch_add_spec l r H) as (_ & K & _ & _ & _ & _ & P). rewrite P, K.
+  intros H C i. destruct (batch_add_spec l r H) as (_ & _ & K & _ & _ & _ & _ & P). rewrite P, K.
   destruct C as [C|C].
   - unfold batch_kind. rewrite C. simpl. apply wsum_ones.
   - destruct (wsum_ones_int l i C) as [n Hn]. rewrite <- (wsum_ones l i), Hn, cast_inject_Z. reflexivity.
@@ -583,19 +629,20 @@ Qed.
 (* weighted sum *)
 Lemma batch_add_weighted_spec l ws r : batch_add l (Some ws) = Ok (Some r) ->
   length ws = length l /\
-  (exists a0 l', l = a0 :: l' /\ fbits r = fbits a0 /\ flevel r = flevel a0) /\
+  (exists a0 l', l = a0 :: l' /\ fbits r = fbits a0 /\ flevel r = flevel a0) /\ (forall a, In a l -> fbits a = fbits r) /\
   fkind r = KFloat /\ fname r = None /\ fidx r = all_keys l /\ ckeys (fcnt r) = fidx r /\
   (forall i, In i (fidx r) <-> exists a, In a l /\ In i (ckeys (counts_of a))) /\
   (forall i, In i (fidx r) -> cget (fcnt r) i = wsum l ws i) /\
   (forall i, cget (fcnt r) i == wsum l ws i).
 Proof.
-  destruct l as [|a0 l']; [discriminate|]. intro H.
+  destruct l as [|a0 l']; [discriminate|]. intro H. pose proof (batch_add_ok_bits _ _ _ H) as Hb.
   assert (E : length ws = length (a0 :: l')).
-  { unfold batch_add in H. destruct (Nat.eqb (length ws) (length (a0 :: l'))) eqn:E; [|discriminate]. apply Nat.eqb_eq. exact E. }
-  rewrite (batch_add_weighted_eq a0 l' ws E) in H. cbv zeta in H.
+  { unfold batch_add in H. rewrite Hb in H. cbn [negb] in H.
+    destruct (Nat.eqb (length ws) (length (a0 :: l'))) eqn:E; [|discriminate]. apply Nat.eqb_eq. exact E. }
+  rewrite (batch_add_weighted_eq a0 l' ws Hb E) in H. cbv zeta in H.
   destruct (existsb _ _); [discriminate|]. inversion H; subst; clear H.
   simpl fkind; simpl fname; simpl fidx; simpl fcnt; simpl fbits; simpl flevel.
-  split; [exact E|]. split; [exists a0, l'; auto|]. repeat split; try reflexivity.
+  split; [exact E|]. split; [exists a0, l'; auto|]. split; [exact (proj1 (batch_bits_ok_spec a0 l') Hb)|]. repeat split; try reflexivity.
   - apply ckeys_cbuild.
   - apply In_all_keys.
   - apply In_all_keys.
@@ -618,7 +665,7 @@ Lemma batch_mean_weighted_spec l ws r : batch_mean l (Some ws) = Ok (Some r) ->
 Proof.
   unfold batch_mean. destruct (Qeq_bool (qsum ws) 0) eqn:S; [discriminate|]. intro H.
   apply Qeq_bool_neq in S.
-  destruct (batch_add_weighted_spec _ _ _ H) as (E & Hd & K & _ & I & Ck & _ & _ & P).
+  destruct (batch_add_weighted_spec _ _ _ H) as (E & Hd & _ & K & _ & I & Ck & _ & _ & P).
   rewrite map_length in E. repeat split; try assumption.
   intro i. rewrite P. apply wsum_scale. exact S.
 Qed.
@@ -634,7 +681,7 @@ Proof.
   destruct (batch_add l None) as [[s|]|e] eqn:A; cbn [rbind]; try discriminate.
   destruct (fp_div s (inject_Z (Z.of_nat (length l)))) as [m|e] eqn:D; cbn [rbind]; [|discriminate].
   intro H. inversion H; subst; clear H.
-  destruct (batch_add_spec l s A) as (Hd & K & _ & I & Ck & _ & P).
+  destruct (batch_add_spec l s A) as (Hd & _ & K & _ & I & Ck & _ & P).
   assert (Hc : is_count_like s = true). { unfold is_count_like. rewrite K. unfold batch_kind. destruct (any_float l); reflexivity. }
   destruct (div_spec s _ r Hc D) as (_ & K' & B' & L' & _ & Ck' & _ & P').
   split; [discriminate|]. split; [exact K'|]. split; [congruence|]. split.
@@ -655,9 +702,22 @@ Qed.
 Lemma batch_empty : batch_add [] None = Ok None /\ batch_mean [] None = Raises EType.
 Proof. split; reflexivity. Qed.
 
-Lemma batch_weights_length_rejected l ws : l <> [] -> length ws <> length l -> batch_add l (Some ws) = Raises EValue.
+Lemma batch_weights_length_rejected l ws : l <> [] -> batch_bits_ok l = true -> length ws <> length l ->
+  batch_add l (Some ws) = Raises EValue.
 Proof.
-  intros Hl H. destruct l as [|a l]; [congruence|]. unfold batch_add. apply Nat.eqb_neq in H. rewrite H. reflexivity.
+  intros Hl Hb H. destruct l as [|a l]; [congruence|]. unfold batch_add. rewrite Hb. apply Nat.eqb_neq in H. rewrite H. reflexivity.
+Qed.
+
+(* members of different lengths: rejected by the sum (weighted or not) and by the mean (a zero weight sum is reported first) *)
+Lemma batch_bits_mismatch_rejected l a : l <> [] -> In a l -> fbits a <> fbits (hd a l) ->
+  (forall w, batch_add l w = Raises EBits) /\ batch_mean l None = Raises EBits /\
+  (forall ws, ~ qsum ws == 0 -> batch_mean l (Some ws) = Raises EBits).
+Proof.
+  intros Hl Ha Hne. split; [|split].
+  - intro w. apply (batch_bits_mismatch_add l w a Hl Ha Hne).
+  - unfold batch_mean. destruct l as [|a0 l']; [congruence|]. rewrite (batch_bits_mismatch_add _ None a Hl Ha Hne). reflexivity.
+  - intros ws Hs. unfold batch_mean. destruct (Qeq_bool (qsum ws) 0) eqn:E; [apply Qeq_bool_iff in E; contradiction|].
+    apply (batch_bits_mismatch_add l _ a Hl Ha Hne).
 Qed.
 
 Lemma batch_mean_zero_weights_rejected l ws : qsum ws == 0 -> batch_mean l (Some ws) = Raises EValue.
@@ -677,6 +737,6 @@ Proof. intro H. split; [exact (fp_add_count a b H) | exact (fp_sub_count a b H)]
 
 Lemma batch_rejections :
   (batch_add [] None = Ok None /\ batch_mean [] None = Raises EType) /\
-  (forall l ws, l <> [] -> length ws <> length l -> batch_add l (Some ws) = Raises EValue) /\
+  (forall l ws, l <> [] -> batch_bits_ok l = true -> length ws <> length l -> batch_add l (Some ws) = Raises EValue) /\
   (forall l ws, qsum ws == 0 -> batch_mean l (Some ws) = Raises EValue).
 Proof. split; [exact batch_empty|]. split; [exact batch_weights_length_rejected | exact batch_mean_zero_weights_rejected]. Qed.
